@@ -192,7 +192,7 @@ impl Check for C02 {
         "C02"
     }
     fn work(&self, tier: Tier) -> Vec<WorkItem> {
-        vec![WorkItem { mode: "directed", count: 1 }, WorkItem { mode: "cli", count: tier.pick(64, 4_000) }, WorkItem { mode: "gen", count: std::env::var("VERIF_N").ok().and_then(|s| s.parse().ok()).unwrap_or(tier.pick(240, 24_000)) }]
+        vec![WorkItem { mode: "directed", count: 2 }, WorkItem { mode: "cli", count: tier.pick(64, 4_000) }, WorkItem { mode: "gen", count: std::env::var("VERIF_N").ok().and_then(|s| s.parse().ok()).unwrap_or(tier.pick(240, 24_000)) }]
     }
     fn evaluations_counter(&self) -> &'static str {
         "bmc_runs"
@@ -227,6 +227,23 @@ impl Check for C02 {
     fn run_case(&self, sh: &mut Shard, case: &CaseId) {
         let mut rng = Rng::new(sh.case_seed());
         let mut ctx = Context::default();
+        if case.mode == "directed" && case.n == 1 {
+            // a state with an init value but without a next function is unconstrained from step 1 on (btor2 reading,
+            // which is also what the reader assumes when it turns init-less, next-less states into inputs)
+            let text = "1 sort bitvec 2\n2 state 1 s\n3 zero 1\n4 init 1 2 3\n5 sort bitvec 1\n6 ones 1\n7 eq 5 2 6\n8 bad 7\n9 state 1 t\n10 init 1 9 3\n11 next 1 9 2\n12 eq 5 9 6\n13 bad 12\n";
+            let Some(sys) = patronus::btor2::parse_str(&mut ctx, text, Some("directed")) else { return };
+            let label = describe(&ctx, &sys);
+            let Ok(reach) = reach_for(&ctx, &sys, 4, false) else { return };
+            sh.count("directed_nextless_runs", 1);
+            for persona in PERSONAS {
+                for k in [0u64, 1, 2, 3] {
+                    if self.one_config(sh, &mut ctx, &sys, &label, persona, k % 2 == 1, false, k, &reach, 1).is_none() {
+                        return;
+                    }
+                }
+            }
+            return;
+        }
         if case.mode == "directed" {
             // witness of the known finding: a constant array is sent to a solver profile without const-array support
             let text = "1 sort bitvec 1\n2 sort bitvec 2\n3 sort array 1 2\n4 state 3 mem\n5 zero 2\n6 init 3 4 5\n7 input 1 a\n8 input 2 d\n9 write 3 4 7 8\n10 next 3 4 9\n11 read 2 4 7\n12 ones 2\n13 eq 1 11 12\n14 bad 13\n";
@@ -244,9 +261,15 @@ impl Check for C02 {
             self.cli_case(sh, &mut ctx, &mut rng);
             return;
         }
-        let cfg = mc_sys_cfg(&mut rng);
+        let mut cfg = mc_sys_cfg(&mut rng);
+        // states without a next function (btor2 reading: unconstrained from step 1 on; see R4) in a quarter of the systems
+        cfg.nextless_states = rng.chance(1, 3);
+        cfg.nextless_one_in = 2;
         let gs = gen_system(&mut rng, &mut ctx, &cfg, "");
         let sys = gs.sys;
+        if sys.states.iter().any(|s| s.next.is_none()) {
+            sh.count("systems_with_a_state_without_next", 1);
+        }
         let label = describe(&ctx, &sys);
         let reach = match reach_for(&ctx, &sys, 8, false) {
             Ok(r) => r,
